@@ -10,10 +10,27 @@ Entries whose `old` text is not present in the analysed tree are skipped (counte
 import json, os, shutil, tempfile, multiprocessing
 HERE = os.path.dirname(os.path.abspath(__file__))
 
+VERIF = os.path.dirname(os.path.dirname(HERE))
 def load_corpus():
+    """textual single-edit entries (corpus*.json) + patch entries: /verif/seeded/<Cxx>-<k>/ (independently seeded
+    property-breaking changes, expected to be reported by the check of <Cxx>) and /verif/benign/<id>/ (behaviour-
+    preserving refactorings, expected to stay silent for every property)"""
     out = []
     for fn in sorted(os.listdir(HERE)):
         if fn.startswith("corpus") and fn.endswith(".json"): out += json.load(open(os.path.join(HERE, fn)))
+    sd = os.path.join(VERIF, "seeded")
+    if os.path.isdir(sd):
+        expect = {}
+        ef = os.path.join(sd, "EXPECT.json")
+        if os.path.exists(ef): expect = json.load(open(ef))
+        for d in sorted(os.listdir(sd)):
+            pf = os.path.join(sd, d, "patch.diff")
+            if os.path.exists(pf): out.append({"name": "seeded " + d, "prop": d.split("-")[0], "kind": "mutant", "patch": pf, "expect": expect.get(d, "kill"), "suite": "SURVIVES", "origin": "independent sub-agent"})
+    bd = os.path.join(VERIF, "benign")
+    if os.path.isdir(bd):
+        for d in sorted(os.listdir(bd)):
+            pf = os.path.join(bd, d, "patch.diff")
+            if os.path.exists(pf): out.append({"name": "benign " + d, "prop": "*", "kind": "benign", "patch": pf, "expect": "silent", "suite": "passes", "origin": "independent sub-agent"})
     return out
 
 def _keys(res):
@@ -26,11 +43,16 @@ def _one(args):
     d = tempfile.mkdtemp(prefix="sa_selftest_")
     try:
         shutil.copytree(os.path.join(root, "textx"), os.path.join(d, "textx"), ignore=shutil.ignore_patterns("__pycache__"))
-        p = os.path.join(d, m["path"])
-        if not os.path.exists(p): return (m["name"], "skip", "file missing")
-        s = open(p, encoding="utf-8").read()
-        if m["old"] not in s: return (m["name"], "skip", "anchor text not present")
-        open(p, "w", encoding="utf-8").write(s.replace(m["old"], m["new"], 1))
+        if "patch" in m:
+            import subprocess
+            r = subprocess.run(["patch", "-p1", "-s", "-f", "-d", d, "-i", m["patch"]], capture_output=True, text=True)
+            if r.returncode: return (m["name"], "skip", "patch does not apply to this tree")
+        else:
+            p = os.path.join(d, m["path"])
+            if not os.path.exists(p): return (m["name"], "skip", "file missing")
+            s = open(p, encoding="utf-8").read()
+            if m["old"] not in s: return (m["name"], "skip", "anchor text not present")
+            open(p, "w", encoding="utf-8").write(s.replace(m["old"], m["new"], 1))
         res = report.analyse(prop, d)
         new = _keys(res) - set(base_keys)
         if new: return (m["name"], "finding", sorted(new)[0][1] + " " + sorted(new)[0][3] + " [" + sorted(new)[0][4][:80] + "]")
